@@ -98,6 +98,27 @@ func c01exec(op []string) (out string) {
 		return c01presOp(unhx(op[1]), op[2:])
 	case "iq":
 		return c01iqOp(unhx(op[1]), op[2:])
+	case "schema":
+		if len(op) < 5 {
+			return "bad-op"
+		}
+		return c01schemaOp(op[1], op[2], unhx(op[3]), op[4:])
+	case "dispatch":
+		if len(op) < 6 {
+			return "bad-op"
+		}
+		return c01dispatchOp(op[1], op[2], unhx(op[3]), op[4:])
+	case "command":
+		if len(op) < 4 {
+			return "bad-op"
+		}
+		return c01commandOp(op[1], unhx(op[2]), op[3:])
+	case "msgx":
+		return c01msgxOp(unhx(op[1]), op[2:])
+	case "presx":
+		return c01presxOp(unhx(op[1]), op[2:])
+	case "iqx":
+		return c01iqxOp(unhx(op[1]), op[2:])
 	case "sample":
 		seed, err := strconv.ParseInt(op[3], 10, 64)
 		if err != nil {
@@ -184,6 +205,11 @@ func (c01) Generate(rng *rand.Rand, tier string, st *Stats) []Case {
 	c01genNodes(rng, tier, st, add)
 	// ---- stage 3: envelopes and nonzas ------------------------------------------------------------------------
 	c01genStanzas(rng, tier, st, add)
+	// ---- stage 3b: schema-coded types (generic codec of Model/C01Schema.lean) -------------------------------------------
+	c01genSchema(rng, tier, st, add)
+	c01genCompose(rng, tier, st, add)
+	c01genDispatch(rng, tier, st, add)
+	c01genCommand(rng, tier, st, add)
 	// ---- stage 4: every registered type, sampled -----------------------------------------------------------------
 	c01genSamples(rng, tier, st, add)
 	// invalid UTF-8 is outside the Lean model: Go-side only, "no markup character survives"
